@@ -9,12 +9,12 @@ PKGS = ["./cmd/meta"]
 FOLLOW = {"accept": 1, "link": 2, "first_use": 3, "usable": 3}
 
 
-def run_driver(ctx, cases, name, jobs=None, timeout=1500):
+def run_driver(ctx, cases, name, jobs=None, timeout=1500, case_timeout="8s"):
     drv = ctx.gobuild("./cmd/meta")
     inp = os.path.join(ctx.tmp, "%s-in.ndjson" % name)
     out = os.path.join(ctx.tmp, "%s-out.ndjson" % name)
     common.write_ndjson(inp, cases)
-    ctx.run([drv, "-in", inp, "-out", out, "-j", str(jobs or min(12, common.NCPU)), "-case-timeout", "60s"],
+    ctx.run([drv, "-in", inp, "-out", out, "-j", str(jobs or min(12, common.NCPU)), "-case-timeout", case_timeout],
             timeout=timeout)
     results = common.read_ndjson(out)
     if len(results) != len(cases):
@@ -38,8 +38,13 @@ def consume(ctx, cases, results, stats):
                 raise common.Infra("unreproduced worker %s on case %s" % (res["crash"], json.dumps(case)[:400]))
             # the worker died (fatal error, e.g. stack exhaustion) or hung on this case: nothing a
             # description or a generated schema may cause
-            ctx.violation(dict(stage="crash", kind=res["crash"], mutation=case.get("mode", ""), via="any",
-                               frame=res.get("frame", "")),
+            # "hang": an operation on the loaded schema did not return within the per-case bound (confirmed by two
+            # reruns with twice the bound); "died": fatal error such as stack exhaustion
+            labels = case.get("labels") or []
+            mut = "multiple" if len(labels) > 1 else (labels[0] if labels else
+                                                       ("grammar_free" if case.get("grammar_free") else "none"))
+            ctx.violation(dict(stage="first_use", kind="hang" if res["crash"] == "hang" else "fatal", mutation=mut,
+                               via="any", frame=res.get("frame", "")),
                           dict(case=case, crash=res["crash"], detail=res.get("detail", "")[:3000]))
             continue
         r = res["res"]
